@@ -85,6 +85,7 @@ func init() {
 	for _, id := range []string{"C04", "C05", "C06", "C07", "C08", "C09", "C10", "C17"} {
 		regProp(&PropSpec{ID: id, Level: "model_checking", Groups: []string{"p3", "p2"}, QuickTimeout: 600, ThorTimeout: 3000})
 	}
+	props["C10"].Groups = []string{"p3", "p2", "csproto"}
 	regProp(&PropSpec{ID: "C13", Level: "model_checking", Groups: []string{"lazyproto"}, QuickTimeout: 600, ThorTimeout: 3000})
 	regProp(&PropSpec{ID: "C15", Level: "other", Groups: []string{"lazyproto"}, QuickTimeout: 600, ThorTimeout: 3000,
 		Explanation: "thread-modular ownership obligation decided on every feasible single-thread path by symbolic execution + SMT (no schedule is enumerated): after NewDecoder, objects reachable from the Decoder and all package variables are shared; no non-atomic, non-mutex write may target them; pooled results are owned by one goroutine between Get and Put. Isolation of simultaneously live results is checked on the single-thread projection of two goroutines under an adversarial pool model. Ownership violations are replayed as a goroutine workload under the Go race detector.",
